@@ -108,6 +108,10 @@ func newReporter(idx int, journal *os.File) *Reporter {
 // machine keeps evaluating and reporting; a hung one does not)
 var progress atomic.Int64
 
+// Tick tells the watchdog that the running case is alive; for long phases of a case that make no
+// reporter call (a concurrent pass, a wait for a background loop).
+func Tick() { progress.Add(1) }
+
 func (r *Reporter) Eval(key string, nontrivial bool) {
 	progress.Add(1)
 	r.mu.Lock()
